@@ -2185,41 +2185,35 @@ func (e *CoreExtension) functionParent(args ...interface{}) (interface{}, error)
 			return nil, errors.New("parent() function can only be used within a block")
 		}
 
-		// Get the name of the current block
-		blockName := ctx.currentBlock.name
+		// The current block and the definition of it that is being rendered
+		block := ctx.currentBlock
+		chain := ctx.blockChain[block.name]
 
 		// Debug logging
-		LogDebug("parent() call for block '%s'", blockName)
-		LogDebug("inParentCall=%v, currentBlock=%p", ctx.inParentCall, ctx.currentBlock)
-		LogDebug("Blocks in context: %v", getMapKeys(ctx.blocks))
-		LogDebug("Parent blocks in context: %v", getMapKeys(ctx.parentBlocks))
+		LogDebug("parent() call for block '%s' at level %d of %d", block.name, ctx.blockLevel, len(chain))
 
-		// Check for parent content in the parentBlocks map
-		parentContent, ok := ctx.parentBlocks[blockName]
-		if !ok || len(parentContent) == 0 {
-			return "", fmt.Errorf("no parent block content found for block '%s'", blockName)
+		// parent() renders the next definition up the extends chain; the body
+		// written where the block stands in the layout is the last one
+		next := ctx.blockLevel + 1
+		var parentContent []Node
+		switch {
+		case next < len(chain):
+			parentContent = chain[next]
+		case next == len(chain):
+			parentContent = block.body
+		default:
+			return "", fmt.Errorf("no parent block content found for block '%s'", block.name)
 		}
 
-		// For the simplest possible solution, render the parent content directly
-		// This is the most direct way to avoid recursion issues
+		// Render it with the same variables; a parent() call inside it continues
+		// from its own level
 		var result bytes.Buffer
+		previousLevel := ctx.blockLevel
+		ctx.blockLevel = next
+		defer func() { ctx.blockLevel = previousLevel }()
 
-		// Create a clean context without parent() function to prevent recursion
-		cleanCtx := NewRenderContext(ctx.env, ctx.context, ctx.engine)
-		cleanCtx.sandboxed = ctx.sandboxed
-		defer cleanCtx.Release()
-
-		// Copy all blocks and variables
-		for name, content := range ctx.blocks {
-			cleanCtx.blocks[name] = content
-		}
-
-		// The key here is to NOT set currentBlock - this breaks the recursion chain
-		cleanCtx.currentBlock = nil
-
-		// Render each node with the clean context
 		for _, node := range parentContent {
-			if err := node.Render(&result, cleanCtx); err != nil {
+			if err := node.Render(&result, ctx); err != nil {
 				return nil, err
 			}
 		}
